@@ -16,13 +16,21 @@
 (*   43       for jlinesearch in range(nlinesearch):                      *)
 (*   45-46      residual_norm = |f(x)|                    (evaluation k)  *)
 (*   48-50      if residual_norm < last_residual_norm: x_best = x; break  *)
-(*   54-56    if residual_norm >= last_residual_norm: break               *)
-(*   58     if last_residual_norm > tol*1e4: logger.warning(...)          *)
+(*   54-56    if not residual_norm < last_residual_norm: break            *)
+(*   58     if not last_residual_norm <= tol*1e4: logger.warning(...)     *)
 (*   62     return x_best                                                 *)
 (*                                                                        *)
-(*  N is the type of norms.  [ltb a b] is Python's  a < b ;  a > b  is    *)
-(*  [ltb b a];  a >= b  is a SEPARATE boolean [geb a b], because with a   *)
-(*  NaN operand both  a < b  and  a >= b  are False.                      *)
+(*  This is newton.py AFTER the repair commit 80a62e6 (newton() stops and  *)
+(*  warns when the residual norm is NaN).  Before it, line 54 was          *)
+(*  `if residual_norm >= last_residual_norm` and line 58 was               *)
+(*  `if last_residual_norm > tol*1e4`; with a NaN norm both are False, so  *)
+(*  the loop went on and x0 could be returned silently.  The old control   *)
+(*  function is kept as [Before_fix.newton_ctl_before_fix] with the        *)
+(*  examples that document the defect.                                     *)
+(*                                                                        *)
+(*  N is the type of norms.  [ltb a b] is Python's  a < b  and [leb a b]   *)
+(*  is Python's  a <= b : two SEPARATE booleans, because with a NaN        *)
+(*  operand both are False (so  not a <= b  is not  b < a).                *)
 (*                                                                        *)
 (*  niter = 0 : Python raises UnboundLocalError at line 58                *)
 (*  (last_residual_norm unbound).  The model returns last := norms 0 in   *)
@@ -41,7 +49,7 @@ Section Ctl.
 
 Variable N : Type.
 Variable ltb : N -> N -> bool.     (* Python  a <  b *)
-Variable geb : N -> N -> bool.     (* Python  a >= b   (NOT negb ltb when NaN is around) *)
+Variable leb : N -> N -> bool.     (* Python  a <= b   (NOT negb (ltb b a) when NaN is around) *)
 Variable tol tol4 : N.             (* tol  and  tol*1e4 *)
 
 Record result := {
@@ -81,7 +89,7 @@ Fixpoint linesearch (n : nat) (lst cur : N) (k : nat) : option nat * N * nat :=
 
 (* Lines 58-62. *)
 Definition finish (bst : nat) (lst : N) (k : nat) (ach : bool) : result :=
-  {| best := bst; warned := ltb tol4 lst; evals := k; achieved := ach; last := lst |}.
+  {| best := bst; warned := negb (leb lst tol4); evals := k; achieved := ach; last := lst |}.
 
 (* Outer loop (Python lines 31-56).
      n     remaining iterations of range(niter)
@@ -102,7 +110,8 @@ Fixpoint outer (n : nat) (bst : nat) (cur lst : N) (k : nat)
         let '(acc, cur', k') := linesearch nls lst' cur k in  (* lines 43-52 *)
         let bst' := match acc with Some i => i | None => bst end in
         let tr   := match acc with Some i => [(i, lst')] | None => [] end in
-        if geb cur' lst' then (finish bst' lst' k' false, tr) (* lines 54-56 *)
+        if negb (ltb cur' lst')                               (* lines 54-56 *)
+        then (finish bst' lst' k' false, tr)
         else let (r, t) := outer n' bst' cur' lst' k' in (r, tr ++ t)
   end.
 
@@ -119,21 +128,11 @@ Definition accepted (niter : nat) : list (nat * N) := snd (newton_run niter).
 (*  Order hypotheses (each theorem says with [Proof using] what it uses)   *)
 (* ---------------------------------------------------------------------- *)
 
-Hypothesis ltb_trans  : forall a b c, ltb a b = true -> ltb b c = true -> ltb a c = true.
-Hypothesis ltb_irrefl : forall a, ltb a a = false.
-
-(* "No NaN in the stream": on norms, >= is exactly the negation of <. *)
-Definition no_nan : Prop :=
-  forall i j, geb (norms i) (norms j) = negb (ltb (norms i) (norms j)).
-
-(* The only consequence of [no_nan] that is ever used. *)
-Definition geb_or_ltb : Prop :=
-  forall i j, geb (norms i) (norms j) = false -> ltb (norms i) (norms j) = true.
-
-Lemma no_nan_geb_or_ltb : no_nan -> geb_or_ltb.
-Proof using.
-  intros H i j Hg. rewrite H in Hg. now apply negb_false_iff in Hg.
-Qed.
+(* All three hold for IEEE floats INCLUDING NaN (and for any preorder/strict
+   order pair with NaN-like elements on which every comparison is false). *)
+Hypothesis ltb_trans     : forall a b c, ltb a b = true -> ltb b c = true -> ltb a c = true.
+Hypothesis ltb_irrefl    : forall a, ltb a a = false.
+Hypothesis ltb_leb_trans : forall a b c, ltb a b = true -> leb b c = true -> leb a c = true.
 
 (* ---------------------------------------------------------------------- *)
 (*  Line-search specification                                             *)
@@ -194,7 +193,7 @@ Lemma outer_basic : forall n bst cur lst k r t,
   k <= evals r /\
   Forall (entry_ok k (evals r)) t /\
   best r = List.last (map fst t) bst /\
-  warned r = ltb tol4 (last r) /\
+  warned r = negb (leb (last r) tol4) /\
   (achieved r = true -> ltb (last r) tol = true).
 Proof using.
   induction n as [|n IH]; intros bst cur lst k r t Hk1 Hcur H; simpl in H.
@@ -205,7 +204,7 @@ Proof using.
     apply linesearch_spec in Els. destruct Els as (Hkk & Hc & Ha).
     assert (Hcur' : cur' = norms (k' - 1)).
     { destruct Hc as [[-> ->] | [_ ->]]; auto. }
-    destruct (geb cur' cur) eqn:Egeb.
+    destruct (negb (ltb cur' cur)) eqn:Egeb.
     + inversion H; subst r t; simpl. split; [lia|].
       destruct acc as [i|]; simpl.
       * destruct Ha as (-> & Hi & -> & Hl).
@@ -232,7 +231,7 @@ Proof using.
   Qed.
 
 (* ---------------------------------------------------------------------- *)
-(*  Invariants that need "no NaN" (in the weak form geb_or_ltb)            *)
+(*  The chain invariant (unconditional for the repaired code)             *)
 (* ---------------------------------------------------------------------- *)
 
 (* chain a t : the entries of t are linked: each was accepted against the
@@ -243,14 +242,13 @@ Fixpoint chain (a : N) (t : list (nat * N)) : Prop :=
   | (i, l) :: t' => l = a /\ ltb (norms i) l = true /\ chain (norms i) t'
   end.
 
-Lemma outer_chain : geb_or_ltb ->
+Lemma outer_chain :
   forall n bst lst k r t,
   (lst = norms bst \/ ltb (norms bst) lst = true) ->
   outer n bst (norms bst) lst k = (r, t) ->
   chain (norms bst) t /\
   (last r = norms (best r) \/ ltb (norms (best r)) (last r) = true).
 Proof using.
-  intros Hgl.
   induction n as [|n IH]; intros bst lst k r t Hlst H; simpl in H.
   - inversion H; subst; simpl. auto.
   - destruct (ltb (norms bst) tol) eqn:Etol.
@@ -259,21 +257,21 @@ Proof using.
     apply linesearch_spec in Els. destruct Els as (Hkk & Hc & Ha).
     destruct acc as [i|].
     + destruct Ha as (-> & Hi & -> & Hl).
-      destruct (geb (norms i) (norms bst)) eqn:Egeb.
+      destruct (negb (ltb (norms i) (norms bst))) eqn:Egeb.
       * inversion H; subst r t; simpl. auto.
       * destruct (outer n i (norms i) (norms bst) (S i)) as [r0 t0] eqn:Eo.
         inversion H; subst r t; clear H.
         apply IH in Eo; [|auto]. destruct Eo as (Hch & Hlast).
         simpl. auto.
     + destruct Ha as (-> & Hz).
-      destruct (geb cur' (norms bst)) eqn:Egeb.
+      destruct (negb (ltb cur' (norms bst))) eqn:Egeb.
       * inversion H; subst r t; simpl. auto.
       * (* the loop continues without an acceptance: only possible when the
            line search did not evaluate anything (nls = 0) *)
         assert (Hcc : cur' = norms bst).
         { destruct Hc as [[-> _] | [Hlt ->]]; auto.
           destruct Hz as [-> | Hz]; [lia|].
-          apply Hgl in Egeb. congruence. }
+          apply negb_false_iff in Egeb. congruence. }
         subst cur'.
         destruct (outer n bst (norms bst) (norms bst) (k + nls)) as [r0 t0] eqn:Eo.
         inversion H; subst r t; clear H.
@@ -327,7 +325,7 @@ Lemma run_basic :
   1 <= evals r /\
   Forall (entry_ok 1 (evals r)) t /\
   best r = List.last (map fst t) 0 /\
-  warned r = ltb tol4 (last r) /\
+  warned r = negb (leb (last r) tol4) /\
   (achieved r = true -> ltb (last r) tol = true).
 Proof using.
   intros r t. apply (@outer_basic niter 0 (norms 0) (norms 0) 1 r t); auto.
@@ -378,47 +376,55 @@ Theorem achieved_means_below_tol :
   achieved r = true -> ltb (last r) tol = true.
 Proof using. apply run_basic. Qed.
 
-Theorem warned_iff_last_gt_tol4 :
-  let r := newton_ctl niter in warned r = ltb tol4 (last r).
+(* Line 58. *)
+Theorem warned_iff_not_last_le_tol4 :
+  let r := newton_ctl niter in warned r = negb (leb (last r) tol4).
 Proof using. apply run_basic. Qed.
 
-(* N3, invariant form; no transitivity needed:  the first accepted evaluation
-   was accepted against norms 0, each later one against the norm of the
-   previously accepted evaluation. *)
-Theorem accepted_chain_linked :
-  no_nan -> chain (norms 0) (accepted niter).
+(* (c)  A NaN-like last_residual_norm (one for which  last <= tol4  is False, as it is
+   for NaN) always produces the warning.  Immediate from line 58 as repaired; it was
+   FALSE before the repair (see NanExample.nan_boundary). *)
+Theorem nan_always_warns :
+  let r := newton_ctl niter in
+  leb (last r) tol4 = false -> warned r = true.
 Proof using.
-  intros Hnn. apply no_nan_geb_or_ltb in Hnn.
-  eapply (@outer_chain Hnn niter 0 (norms 0) 1); [left; reflexivity | apply run_eq].
+  intros r H. unfold r. rewrite warned_iff_not_last_le_tol4. fold r. rewrite H. reflexivity.
+Qed.
+
+(* N3, invariant form; NO hypothesis at all:  the first accepted evaluation
+   was accepted against norms 0, each later one against the norm of the
+   previously accepted evaluation.  (Before the repair: only for NaN-free streams.) *)
+Theorem accepted_chain_linked :
+  chain (norms 0) (accepted niter).
+Proof using.
+  eapply (@outer_chain niter 0 (norms 0) 1); [left; reflexivity | apply run_eq].
 Qed.
 
 (* N3 :  along  0 :: accepted indices  every later evaluation has a strictly
-   smaller norm than every earlier one. *)
+   smaller norm than every earlier one.  For EVERY stream, NaNs included. *)
 Theorem accepted_chain_decreasing :
-  no_nan -> StronglySorted better (0 :: map fst (accepted niter)).
+  StronglySorted better (0 :: map fst (accepted niter)).
 Proof using ltb_trans.
-  intros Hnn. apply chain_sorted. apply accepted_chain_linked. exact Hnn.
+  apply chain_sorted. apply accepted_chain_linked.
 Qed.
 
 (* N3, index form of the same statement. *)
 Theorem accepted_pairwise_decreasing :
-  no_nan ->
   let l := 0 :: map fst (accepted niter) in
   forall i j, i < j < length l ->
   ltb (norms (nth j l 0)) (norms (nth i l 0)) = true.
 Proof using ltb_trans.
-  intros Hnn l i j Hij.
-  exact (StronglySorted_nth (accepted_chain_decreasing Hnn) 0 Hij).
+  intros l i j Hij.
+  exact (StronglySorted_nth accepted_chain_decreasing 0 Hij).
 Qed.
 
-(* N2.  NOTE: needs no_nan in addition to ltb_trans; see the counterexample
-   [never_worse_needs_no_nan] below. *)
+(* N2 (a).  For EVERY stream, NaNs included; only ltb_trans.  (Before the repair
+   this was false on streams with NaN: NanExample.never_worse_needs_no_nan.) *)
 Theorem never_worse_than_initial :
-  no_nan ->
   let r := newton_ctl niter in
   best r = 0 \/ ltb (norms (best r)) (norms 0) = true.
 Proof using ltb_trans.
-  intros Hnn r. pose proof (accepted_chain_decreasing Hnn) as Hs.
+  intros r. pose proof accepted_chain_decreasing as Hs.
   apply StronglySorted_inv in Hs. destruct Hs as [_ Hf].
   unfold r. rewrite best_is_last_accepted.
   destruct (last_in_cons (map fst (accepted niter)) 0) as [Hnil | Hin].
@@ -427,46 +433,89 @@ Proof using ltb_trans.
 Qed.
 
 (* Core of N4: at exit, last_residual_norm is the norm of the returned point,
-   or strictly larger. *)
+   or strictly larger.  No hypothesis. *)
 Theorem last_bounds_best :
-  no_nan ->
   let r := newton_ctl niter in
   last r = norms (best r) \/ ltb (norms (best r)) (last r) = true.
 Proof using.
-  intros Hnn r. apply no_nan_geb_or_ltb in Hnn.
-  eapply (@outer_chain Hnn niter 0 (norms 0) 1); [left; reflexivity | apply run_eq].
+  intros r.
+  eapply (@outer_chain niter 0 (norms 0) 1); [left; reflexivity | apply run_eq].
 Qed.
 
-(* N4, first part (stronger than requested: no "best r = 0 \/" escape). *)
+(* N4, first part. *)
 Theorem no_warning_means_small :
-  no_nan ->
   let r := newton_ctl niter in
   warned r = false ->
-  ltb tol4 (last r) = false /\
-  ltb (last r) (norms (best r)) = false.
-Proof using ltb_trans ltb_irrefl.
-  intros Hnn r Hw. split.
-  - rewrite <- Hw. symmetry. apply warned_iff_last_gt_tol4.
-  - destruct (last_bounds_best Hnn) as [He | Hl]; fold r in He || fold r in Hl.
-    + rewrite He. apply ltb_irrefl.
-    + destruct (ltb (last r) (norms (best r))) eqn:E; [|reflexivity].
-      pose proof (ltb_trans E Hl) as Hc. rewrite ltb_irrefl in Hc. discriminate.
+  leb (last r) tol4 = true /\
+  (last r = norms (best r) \/ ltb (norms (best r)) (last r) = true).
+Proof using.
+  intros r Hw. split; [|apply last_bounds_best].
+  unfold r in Hw. rewrite warned_iff_not_last_le_tol4 in Hw.
+  apply negb_false_iff in Hw. exact Hw.
 Qed.
 
-(* N4, conclusion: no warning ==> the returned point's residual norm is <= tol4.
-   Transitivity suffices (no totality needed). *)
-Theorem no_warning_means_best_small :
-  no_nan ->
+(* ... in the form "last is not below the returned point's norm". *)
+Theorem no_warning_last_not_below_best :
   let r := newton_ctl niter in
-  warned r = false -> ltb tol4 (norms (best r)) = false.
-Proof using ltb_trans.
-  intros Hnn r Hw.
-  assert (Hl : ltb tol4 (last r) = false).
-  { rewrite <- Hw. symmetry. apply warned_iff_last_gt_tol4. }
-  destruct (last_bounds_best Hnn) as [He | Hb]; fold r in He || fold r in Hb.
+  ltb (last r) (norms (best r)) = false.
+Proof using ltb_trans ltb_irrefl.
+  intros r. destruct last_bounds_best as [He | Hl]; fold r in He || fold r in Hl.
+  - rewrite He. apply ltb_irrefl.
+  - destruct (ltb (last r) (norms (best r))) eqn:E; [|reflexivity].
+    pose proof (ltb_trans E Hl) as Hc. rewrite ltb_irrefl in Hc. discriminate.
+Qed.
+
+(* N4 (b), conclusion: no warning ==> the returned point's residual norm is <= tol4,
+   positively ([leb ... = true], so in particular it is not NaN).  For EVERY stream;
+   the only order fact used is  a < b -> b <= c -> a <= c, true of IEEE floats with NaN. *)
+Theorem no_warning_means_best_small :
+  let r := newton_ctl niter in
+  warned r = false -> leb (norms (best r)) tol4 = true.
+Proof using ltb_leb_trans.
+  intros r Hw. destruct (no_warning_means_small Hw) as [Hl [He | Hb]];
+    fold r in Hl; fold r in He || fold r in Hb.
   - rewrite <- He. exact Hl.
-  - destruct (ltb tol4 (norms (best r))) eqn:E; [|reflexivity].
-    rewrite (ltb_trans E Hb) in Hl. discriminate.
+  - exact (ltb_leb_trans Hb Hl).
+Qed.
+
+(* If the INITIAL norm is NaN-like (not < tol, and nothing is < it) the repaired code
+   does one line search, stops, and returns x0 ... *)
+Lemma linesearch_all_fail : forall n lst cur k,
+  (forall j, ltb (norms j) lst = false) ->
+  exists c, linesearch n lst cur k = (None, c, k + n) /\ (c = cur \/ exists j, c = norms j).
+Proof using.
+  induction n as [|n IH]; intros lst cur k Hall; simpl.
+  - exists cur. rewrite Nat.add_0_r. auto.
+  - rewrite Hall. destruct (IH lst (norms k) (S k) Hall) as (c & -> & Hc).
+    exists c. split; [f_equal; lia|]. right. destruct Hc as [-> | Hc]; eauto.
+Qed.
+
+Theorem nan_initial_stops :
+  1 <= niter ->
+  ltb (norms 0) tol = false ->
+  (forall j, ltb (norms j) (norms 0) = false) ->
+  let r := newton_ctl niter in
+  best r = 0 /\ evals r = 1 + nls /\ last r = norms 0 /\ achieved r = false /\
+  accepted niter = [].
+Proof using.
+  intros Hn Htol Hall. unfold newton_ctl, accepted, newton_run.
+  destruct niter as [|n]; [lia|]. simpl. rewrite Htol.
+  destruct (@linesearch_all_fail nls (norms 0) (norms 0) 1 Hall) as (c & -> & Hc).
+  assert (Hcl : ltb c (norms 0) = false).
+  { destruct Hc as [-> | [j ->]]; apply Hall. }
+  rewrite Hcl. simpl. repeat split.
+Qed.
+
+(* ... with the warning, when moreover  norms 0 <= tol4  is False (as for NaN). *)
+Theorem nan_initial_warns :
+  1 <= niter ->
+  ltb (norms 0) tol = false ->
+  (forall j, ltb (norms j) (norms 0) = false) ->
+  leb (norms 0) tol4 = false ->
+  warned (newton_ctl niter) = true.
+Proof using.
+  intros Hn Htol Hall Hle. apply nan_always_warns.
+  destruct (nan_initial_stops Hn Htol Hall) as (_ & _ & -> & _). exact Hle.
 Qed.
 
 End Model.
@@ -488,9 +537,13 @@ Check accepted_chain_decreasing.
 Check accepted_pairwise_decreasing.
 Check last_bounds_best.
 Check no_warning_means_small.
+Check no_warning_last_not_below_best.
 Check no_warning_means_best_small.
 Check achieved_means_below_tol.
-Check warned_iff_last_gt_tol4.
+Check warned_iff_not_last_le_tol4.
+Check nan_always_warns.
+Check nan_initial_stops.
+Check nan_initial_warns.
 
 Print Assumptions best_is_x0_or_accepted.
 Print Assumptions accepted_trace_sound.
@@ -501,23 +554,69 @@ Print Assumptions accepted_chain_decreasing.
 Print Assumptions accepted_pairwise_decreasing.
 Print Assumptions last_bounds_best.
 Print Assumptions no_warning_means_small.
+Print Assumptions no_warning_last_not_below_best.
 Print Assumptions no_warning_means_best_small.
 Print Assumptions achieved_means_below_tol.
-Print Assumptions warned_iff_last_gt_tol4.
+Print Assumptions warned_iff_not_last_le_tol4.
+Print Assumptions nan_always_warns.
+Print Assumptions nan_initial_stops.
+Print Assumptions nan_initial_warns.
 
 (* ====================================================================== *)
-(*  N5: the NaN boundary, on a concrete instance                          *)
-(*      N := option nat,  None behaves like NaN: every comparison false.  *)
+(*  The control function BEFORE the repair (newton.py up to cdfd08f):     *)
+(*    line 54  if residual_norm >= last_residual_norm: break              *)
+(*    line 58  if last_residual_norm > tol*1e4: warn                      *)
+(*  kept only to document the defect (examples in NanExample / PyTrace).  *)
+(*  [geb a b] is Python's a >= b, a separate boolean.                     *)
+(* ====================================================================== *)
+
+Module Before_fix.
+Section Old.
+
+Variable N : Type.
+Variable ltb geb : N -> N -> bool.
+Variable tol tol4 : N.
+Variable nls : nat.
+Variable norms : nat -> N.
+
+Definition finish_before_fix (bst : nat) (lst : N) (k : nat) (ach : bool) : result N :=
+  {| best := bst; warned := ltb tol4 lst; evals := k; achieved := ach; last := lst |}.
+
+Fixpoint outer_before_fix (n : nat) (bst : nat) (cur lst : N) (k : nat) : result N :=
+  match n with
+  | 0 => finish_before_fix bst lst k false
+  | S n' =>
+      let lst' := cur in
+      if ltb cur tol then finish_before_fix bst lst' k true
+      else
+        let '(acc, cur', k') := linesearch ltb norms nls lst' cur k in
+        let bst' := match acc with Some i => i | None => bst end in
+        if geb cur' lst' then finish_before_fix bst' lst' k' false   (* old line 54 *)
+        else outer_before_fix n' bst' cur' lst' k'
+  end.
+
+Definition newton_ctl_before_fix (niter : nat) : result N :=
+  outer_before_fix niter 0 (norms 0) (norms 0) 1.
+
+End Old.
+End Before_fix.
+
+(* ====================================================================== *)
+(*  Concrete instance  N := option nat,  None behaves like NaN            *)
+(*  (every comparison with None is false).                                *)
 (* ====================================================================== *)
 
 Module NanExample.
+Import Before_fix.
 
 Definition oltb (a b : option nat) : bool :=
   match a, b with Some x, Some y => Nat.ltb x y | _, _ => false end.
+Definition oleb (a b : option nat) : bool :=
+  match a, b with Some x, Some y => Nat.leb x y | _, _ => false end.
 Definition ogeb (a b : option nat) : bool :=
   match a, b with Some x, Some y => Nat.leb y x | _, _ => false end.
 
-(* The order hypotheses of the generic theorems DO hold for this instance ... *)
+(* The order hypotheses of the generic theorems hold for this instance, NaN included. *)
 Lemma oltb_trans : forall a b c, oltb a b = true -> oltb b c = true -> oltb a c = true.
 Proof.
   intros [x|] [y|] [z|]; simpl; try discriminate.
@@ -525,88 +624,121 @@ Proof.
 Qed.
 Lemma oltb_irrefl : forall a, oltb a a = false.
 Proof. intros [x|]; simpl; [apply Nat.ltb_irrefl | reflexivity]. Qed.
+Lemma oltb_oleb_trans : forall a b c, oltb a b = true -> oleb b c = true -> oleb a c = true.
+Proof.
+  intros [x|] [y|] [z|]; simpl; try discriminate.
+  rewrite Nat.ltb_lt, !Nat.leb_le. lia.
+Qed.
 
 Definition otol  : option nat := Some 1.
 Definition otol4 : option nat := Some 10.
 
 (* Initial norm 100 (> tol4 = 10); every later evaluation gives NaN.
-   This is what  f = log, x0 = 20, niter = 3, nlinesearch = 2  does in the real
-   newton(): norms = [2.9957, nan, nan, nan, nan, nan, nan], x_best = x0, no warning
-   (see the float example [py_lognan] at the end of the file). *)
+   (f = log, x0 = 20 does this in the real newton(): see PyTrace.py_lognan.) *)
 Definition nan_stream (k : nat) : option nat :=
   match k with 0 => Some 100 | _ => None end.
 
-(* ... only no_nan fails. *)
-Lemma nan_stream_not_no_nan : ~ no_nan oltb ogeb nan_stream.
-Proof. intros H. specialize (H 1 0). discriminate H. Qed.
+(* ---- the defect, on the OLD control function ---- *)
 
-(* N5: the NaN path returns x0 silently: best = 0, no warning, tolerance not
-   achieved, although the norm at x0 exceeds tol4.  (last_residual_norm = NaN at
-   exit, and NaN > tol4 is False.) *)
+(* N5 (old code): the NaN path returns x0 silently: best = 0, NO warning, although the
+   norm at x0 exceeds tol4; all niter*nls = 6 line-search evaluations are wasted, and
+   last_residual_norm = NaN at exit (NaN > tol4 is False). *)
 Example nan_boundary :
-  let r := newton_ctl oltb ogeb otol otol4 2 nan_stream 3 in
+  let r := newton_ctl_before_fix oltb ogeb otol otol4 2 nan_stream 3 in
   best r = 0 /\ warned r = false /\ achieved r = false /\ evals r = 7 /\
   last r = None /\
   oltb otol4 (nan_stream (best r)) = true.     (* norms(best) > tol4 *)
 Proof. vm_compute. repeat split. Qed.
 
-(* Hence the conclusion of [no_warning_means_best_small] fails without no_nan. *)
-Example no_warning_needs_no_nan :
-  let r := newton_ctl oltb ogeb otol otol4 2 nan_stream 3 in
-  warned r = false /\ oltb otol4 (nan_stream (best r)) <> false.
-Proof. vm_compute. split; [reflexivity | discriminate]. Qed.
-
-(* N2 / N3 also need no_nan.  After a line search whose LAST trial is NaN the test
-   of line 54 (NaN >= last) is False, the loop goes on with
-   last_residual_norm = NaN, the next failed trial (norm 50) becomes the new
-   reference, and then an evaluation with norm 30 is accepted although the
-   initial norm was 20: the returned point is WORSE than x0.
-   (Model-level statement about streams.  In an actual run, once a residual is NaN
-   the Newton step and all later iterates are NaN as well unless f/jac swallow
-   NaNs, so such a stream needs an unusual f; the model does not exclude it.) *)
+(* Old code: N2/N3 failed too.  After a line search whose LAST trial is NaN the old
+   test of line 54 (NaN >= last) is False, the loop went on with
+   last_residual_norm = NaN, the next failed trial (norm 50) became the new reference,
+   and then an evaluation with norm 30 was accepted although the initial norm was 20:
+   the returned point is WORSE than x0.  (Model-level statement about streams; in an
+   actual run, once a residual is NaN the later iterates are NaN as well unless f/jac
+   swallow NaNs.) *)
 Definition worse_stream (k : nat) : option nat :=
   match k with 0 => Some 20 | 1 => None | 2 => Some 50 | 3 => Some 30 | _ => None end.
 
 Example never_worse_needs_no_nan :
-  let r := newton_ctl oltb ogeb otol otol4 1 worse_stream 3 in
+  let r := newton_ctl_before_fix oltb ogeb otol otol4 1 worse_stream 3 in
   best r = 3 /\ evals r = 4 /\
   oltb (worse_stream (best r)) (worse_stream 0) = false /\
-  oltb (worse_stream 0) (worse_stream (best r)) = true /\
-  accepted oltb ogeb otol otol4 1 worse_stream 3 = [(3, Some 50)].
+  oltb (worse_stream 0) (worse_stream (best r)) = true.
 Proof. vm_compute. repeat split. Qed.
 
-(* Sanity checks of the model on NaN-free streams. *)
+(* ---- the same streams on the REPAIRED control function ---- *)
+
+(* The line search fails on NaN, line 54 breaks at once (3 evaluations instead of 7),
+   last_residual_norm stays 100 and the warning is issued. *)
+Example nan_stream_now_warns :
+  let r := newton_ctl oltb oleb otol otol4 2 nan_stream 3 in
+  best r = 0 /\ warned r = true /\ achieved r = false /\ evals r = 3 /\
+  last r = Some 100.
+Proof. vm_compute. repeat split. Qed.
+
+(* NaN already at x0: last_residual_norm = NaN, and `not NaN <= tol4` warns. *)
+Example nan_initial_now_warns :
+  let r := newton_ctl oltb oleb otol otol4 2 (fun _ => None) 3 in
+  best r = 0 /\ warned r = true /\ achieved r = false /\ evals r = 3 /\ last r = None.
+Proof. vm_compute. repeat split. Qed.
+
+(* The "worse than x0" stream: the loop now stops after the NaN trial, x0 is returned. *)
+Example worse_stream_now_stops :
+  let r := newton_ctl oltb oleb otol otol4 1 worse_stream 3 in
+  best r = 0 /\ warned r = true /\ evals r = 2 /\ last r = Some 20 /\
+  accepted oltb oleb otol otol4 1 worse_stream 3 = [].
+Proof. vm_compute. repeat split. Qed.
+
+(* A NaN trial in the MIDDLE of a line search is harmless: the next (halved) step is
+   accepted and the iteration converges, without warning. *)
+Definition mid_nan_stream (k : nat) : option nat :=
+  match k with 0 => Some 100 | 1 => None | 2 => Some 40 | 3 => Some 0 | _ => None end.
+Example mid_nan_run :
+  let r := newton_ctl oltb oleb otol otol4 4 mid_nan_stream 20 in
+  best r = 3 /\ warned r = false /\ achieved r = true /\ evals r = 4 /\ last r = Some 0 /\
+  accepted oltb oleb otol otol4 4 mid_nan_stream 20 = [(2, Some 100); (3, Some 40)].
+Proof. vm_compute. repeat split. Qed.
+
+(* ---- sanity checks of the repaired model on NaN-free streams ---- *)
 Definition of_list (l : list nat) (k : nat) : option nat := nth_error l k.
 
 (* two accepted full steps, then below tol *)
 Example ok_run :
-  let r := newton_ctl oltb ogeb otol otol4 4 (of_list [100; 40; 0]) 20 in
+  let r := newton_ctl oltb oleb otol otol4 4 (of_list [100; 40; 0]) 20 in
   best r = 2 /\ warned r = false /\ achieved r = true /\ evals r = 3 /\ last r = Some 0.
 Proof. vm_compute. repeat split. Qed.
 
 (* line search: 2 rejected trials, third accepted; next line search fails (nls = 3) *)
 Example linesearch_run :
-  let r := newton_ctl oltb ogeb otol otol4 3 (of_list [100; 300; 100; 60; 70; 60; 65]) 20 in
+  let r := newton_ctl oltb oleb otol otol4 3 (of_list [100; 300; 100; 60; 70; 60; 65]) 20 in
   best r = 3 /\ warned r = true /\ achieved r = false /\ evals r = 7 /\ last r = Some 60 /\
-  accepted oltb ogeb otol otol4 3 (of_list [100; 300; 100; 60; 70; 60; 65]) 20 = [(3, Some 100)].
+  accepted oltb oleb otol otol4 3 (of_list [100; 300; 100; 60; 70; 60; 65]) 20 = [(3, Some 100)].
 Proof. vm_compute. repeat split. Qed.
 
 (* niter exhausted: last_residual_norm is the norm BEFORE the last accepted step *)
 Example exhausted_run :
-  let r := newton_ctl oltb ogeb otol otol4 4 (of_list [100; 40; 5]) 2 in
+  let r := newton_ctl oltb oleb otol otol4 4 (of_list [100; 40; 5]) 2 in
   best r = 2 /\ warned r = true /\ evals r = 3 /\ last r = Some 40.
 Proof. vm_compute. repeat split. Qed.
 
 (* nlinesearch = 0: residual_norm stays equal to last_residual_norm, line 54 breaks *)
 Example nls0_run :
-  let r := newton_ctl oltb ogeb otol otol4 0 (of_list [100]) 5 in
+  let r := newton_ctl oltb oleb otol otol4 0 (of_list [100]) 5 in
   best r = 0 /\ warned r = true /\ evals r = 1 /\ last r = Some 100.
+Proof. vm_compute. repeat split. Qed.
+
+(* last_residual_norm exactly tol4: `not last <= tol4` does not warn *)
+Example boundary_tol4_run :
+  let r := newton_ctl oltb oleb otol otol4 4 (of_list [100; 10; 20; 20; 20; 20]) 20 in
+  best r = 1 /\ warned r = false /\ achieved r = false /\ evals r = 6 /\ last r = Some 10.
 Proof. vm_compute. repeat split. Qed.
 
 End NanExample.
 
 Print Assumptions NanExample.nan_boundary.
 Print Assumptions NanExample.never_worse_needs_no_nan.
+Print Assumptions NanExample.nan_stream_now_warns.
 
 (* ====================================================================== *)
 (*  Float instance, for the correspondence check against Python           *)
@@ -614,22 +746,45 @@ Print Assumptions NanExample.never_worse_needs_no_nan.
 
 From Coq Require Import Floats.PrimFloat.
 
-(* stream = fun k => nth k norms nan ; a < b = PrimFloat.ltb a b ; a >= b = PrimFloat.leb b a.
+(* stream = fun k => nth k norms nan ; a < b = PrimFloat.ltb a b ; a <= b = PrimFloat.leb a b.
    Returns (best, warned, evals, achieved). *)
 Definition newton_ctl_float (niter nls : nat) (tol tol4 : float) (norms : list float)
   : (nat * bool * nat * bool) :=
-  let r := newton_ctl PrimFloat.ltb (fun a b => PrimFloat.leb b a) tol tol4 nls
+  let r := newton_ctl PrimFloat.ltb PrimFloat.leb tol tol4 nls
                       (fun k => nth k norms nan) niter in
+  (best r, warned r, evals r, achieved r).
+
+(* The pre-repair control function on floats:  a >= b  is  PrimFloat.leb b a. *)
+Definition newton_ctl_float_before_fix (niter nls : nat) (tol tol4 : float) (norms : list float)
+  : (nat * bool * nat * bool) :=
+  let r := Before_fix.newton_ctl_before_fix PrimFloat.ltb (fun a b => PrimFloat.leb b a)
+             tol tol4 nls (fun k => nth k norms nan) niter in
   (best r, warned r, evals r, achieved r).
 
 Module PyTrace.
 Local Open Scope float_scope.
 
+(* The three order hypotheses of the generic theorems (ltb_trans, ltb_irrefl,
+   ltb_leb_trans) are facts of IEEE-754 comparison, NaN included.  They are not proved
+   here for PrimFloat (that would need the SpecFloat specification of the primitives); as a
+   sanity check they are evaluated exhaustively on a sample containing NaN, both
+   infinities and both zeros. *)
+Definition sample : list float :=
+  [nan; neg_infinity; -0x1p+0; -0x0p+0; 0x0p+0; 0x1p-1074; 0x1.c25c268497682p-44; 0x1p+0; infinity].
+Definition implb3 (a b c : bool) : bool := if a then (if b then c else true) else true.
+Example float_order_hypotheses_on_sample :
+  forallb (fun a => negb (PrimFloat.ltb a a) &&
+    forallb (fun b => forallb (fun c =>
+      implb3 (PrimFloat.ltb a b) (PrimFloat.ltb b c) (PrimFloat.ltb a c) &&
+      implb3 (PrimFloat.ltb a b) (PrimFloat.leb b c) (PrimFloat.leb a c)) sample) sample) sample
+  = true.
+Proof. vm_compute. reflexivity. Qed.
+
 (* Norm sequences below were recorded by wrapping f in /repo/qsc/newton.py:newton()
-   (float.hex() of sqrt(sum(r*r)) at every call of f); `best` was obtained by matching
-   the returned x_best against the recorded arguments of f, `warned` with a logging
-   handler, `achieved` by reading the local newton_tolerance_achieved at return.
-   tol = 1e-13, tol4 = 1e-13*1e4 computed in Python. *)
+   AT COMMIT 80a62e6 (the repaired code) (float.hex() of sqrt(sum(r*r)) at every call of
+   f); `best` was obtained by matching the returned x_best against the recorded arguments
+   of f, `warned` with a logging handler, `achieved` by reading the local
+   newton_tolerance_achieved at return.  tol = 1e-13, tol4 = 1e-13*1e4 computed in Python. *)
 Definition tol  : float := 0x1.c25c268497682p-44.
 Definition tol4 : float := 0x1.12e0be826d695p-30.
 
@@ -652,12 +807,28 @@ Example py_atan :
 Proof. vm_compute. reflexivity. Qed.
 
 (* f(x) = log x, x0 = 20, niter=3, nlinesearch=2: every trial is NaN.
-   Python: best 0 (x_best = x0 = 20, residual 2.9957 >> tol4), warned False,
-   evals 7, achieved False, last_residual_norm = nan.   THE NaN BOUNDARY, for real. *)
+   Python (repaired): the first line search fails, line 54 breaks: best 0, warned TRUE
+   (last_residual_norm = 2.9957 > tol4), evals 3, achieved False. *)
 Example py_lognan :
   newton_ctl_float 3 2 tol tol4
+    [0x1.7f7427b73e391p+1; nan; nan]
+  = (0, true, 3, false)%nat.
+Proof. vm_compute. reflexivity. Qed.
+
+(* The same system on the code BEFORE the repair (recorded at commit cdfd08f):
+   norms [2.9957, nan x 6], x_best = x0 = 20, warned False, evals 7, last = nan:
+   x0 returned SILENTLY.  This is the defect that the repair removes. *)
+Example py_lognan_before_fix :
+  newton_ctl_float_before_fix 3 2 tol tol4
     [0x1.7f7427b73e391p+1; nan; nan; nan; nan; nan; nan]
   = (0, false, 7, false)%nat.
+Proof. vm_compute. reflexivity. Qed.
+
+(* f(x) = log x, x0 = -1 (residual NaN already at x0), niter=3, nlinesearch=2.
+   Python (repaired): norms [nan, nan, nan], best 0, warned True (not nan <= tol4),
+   evals 3, achieved False, last_residual_norm = nan. *)
+Example py_nan_initial :
+  newton_ctl_float 3 2 tol tol4 [nan; nan; nan] = (0, true, 3, false)%nat.
 Proof. vm_compute. reflexivity. Qed.
 
 (* f(x) = x^2 + 1 (no root), x0 = 3, niter=20, nlinesearch=4.
